@@ -3,6 +3,7 @@ import Webp.Impl.LTransform
 import Webp.Impl.VP8LEntropy
 import Webp.Proofs.FuncsBridge
 import Webp.Proofs.FuncsLossless
+import Webp.Proofs.FuncsLossless2
 /-
   C03 (and C01) — regenerated obligations: the VP8L pixel / LZ77 helper functions translated from
   the Go AST on this run (`Generated/Funcs.lean`, integer encoding of `Webp/Go/IntSem.lean`) are
@@ -14,8 +15,9 @@ import Webp.Proofs.FuncsLossless
   in-range assumption); Go `int` arguments that the model takes as `Nat` with `↑n`.
 -/
 namespace Webp.Props.C03Funcs
-open Webp.Go Webp.Go.IntSem Webp.Proofs.FuncsBridge Webp.Proofs.FuncsLossless
+open Webp.Go Webp.Go.IntSem Webp.Proofs.FuncsBridge Webp.Proofs.FuncsLossless Webp.Proofs.FuncsLossless2
 open Webp.Impl.LTransform (chanAt)
+open Webp.Spec.LTransform (sext8 byteOfInt colorDelta)
 
 /-- decode_transform.go `addPixels` = `Impl.LTransform.addPixels` -/
 theorem tie_addPixels (a b : UInt32) :
@@ -191,10 +193,109 @@ theorem PlaneCodeToDistance_ge_one (xsize : Nat) (code : Int) :
   · decide
   · omega
 
+/-! ## `getARGBIndex`, `AlphabetSize`, `dsp.colorTransformDelta` -/
+
+/-- decode_transform.go `getARGBIndex` = the green channel `Spec.LTransform.chG` -/
+theorem tie_getARGBIndex (p : UInt32) :
+    Generated.Funcs.getARGBIndex p.toNat = ((Webp.Spec.LTransform.chG p).toNat : Int) := by
+  simp only [Generated.Funcs.getARGBIndex, Webp.Spec.LTransform.chG, shr_nat_lit, band_nat_lit,
+    UInt32.toNat_toUInt8, UInt32.toNat_shiftRight, UInt32.toNat_ofNat, Nat.reducePow, Nat.reduceMod, nat_and_255]
+
+/-- constants.go `AlphabetSize(HuffGreen, bits)` = `280 + 1<<bits` for every `bits ≥ 0`
+    (the function adds `1 << colorCacheBits` unconditionally) -/
+theorem AlphabetSize_green (cb : Nat) :
+    Generated.Funcs.AlphabetSize 0 cb = .ok ((280 + 1 <<< cb : Nat) : Int) := by
+  have e1 : ((1 : Nat) : Int) = 1 := rfl
+  simp only [Generated.Funcs.AlphabetSize, Generated.Funcs.kBaseAlphabetSize, Generated.Funcs.KLiteralMap, idxI,
+    chkShift_nat, Res.bind, shl_lit_nat]
+  simp
+
+/-- constants.go `AlphabetSize(j, bits)`, `j = 0..4`, `bits ≥ 1`: the alphabet sizes of the five
+    codes of a group as read by `Spec.VP8L.readGroup` (= `Impl.CodecFrontL.readFive`) -/
+theorem tie_AlphabetSize (i : Nat) (hi : i < 5) (cb : Nat) (hcb : 1 ≤ cb) :
+    Generated.Funcs.AlphabetSize i cb
+      = .ok (([Webp.Spec.VP8L.greenAlphabetSize cb, 256, 256, 256, Webp.Spec.VP8L.numDistanceCodes].getD i 0 : Nat) : Int) := by
+  have hne : cb ≠ 0 := by omega
+  match i, hi with
+  | 0, _ =>
+    show Generated.Funcs.AlphabetSize 0 cb = _
+    rw [AlphabetSize_green]
+    simp [Webp.Spec.VP8L.greenAlphabetSize, Webp.Spec.VP8L.numLiteralCodes, Webp.Spec.VP8L.numLengthCodes, hne]
+  | 1, _ => rfl
+  | 2, _ => rfl
+  | 3, _ => rfl
+  | 4, _ => rfl
+
+/-- the four other codes do not depend on `colorCacheBits` (any `int`) -/
+theorem AlphabetSize_other (i : Nat) (h1 : 1 ≤ i) (hi : i < 5) (cb : Int) :
+    Generated.Funcs.AlphabetSize i cb = .ok (if i = 4 then 40 else 256) := by
+  match i, h1, hi with
+  | 1, _, _ => rfl
+  | 2, _, _ => rfl
+  | 3, _, _ => rfl
+  | 4, _, _ => rfl
+
+/-- FINDING (recorded, not a tie): at `colorCacheBits = 0` the exported `AlphabetSize(HuffGreen, 0)`
+    is `281` (`280 + 1<<0`), while the decoder's inline computation (`if j == 0 && colorCacheBits > 0`,
+    decode_image.go) and the models use `280`.  `AlphabetSize` has no caller in /repo. -/
+theorem AlphabetSize_green_zero :
+    Generated.Funcs.AlphabetSize 0 0 = .ok 281 ∧ Webp.Spec.VP8L.greenAlphabetSize 0 = 280 := by
+  constructor <;> rfl
+
+/-- `kBaseAlphabetSize[huffIndex]`: index out of range panics -/
+theorem AlphabetSize_panics (i : Int) (h : i < 0 ∨ 5 ≤ i) (cb : Int) :
+    Generated.Funcs.AlphabetSize i cb = .panic := by
+  unfold Generated.Funcs.AlphabetSize
+  have : idxI Generated.Funcs.kBaseAlphabetSize i = .panic := by
+    unfold idxI
+    by_cases h0 : i < 0
+    · simp [h0]
+    · have : Generated.Funcs.kBaseAlphabetSize.length ≤ i.toNat := by
+        simp [Generated.Funcs.kBaseAlphabetSize]; omega
+      simp [h0, List.getElem?_eq_none this]
+  rw [this]; rfl
+
+/-- `1 << colorCacheBits` with a negative count panics -/
+theorem AlphabetSize_green_neg (cb : Int) (h : cb < 0) : Generated.Funcs.AlphabetSize 0 cb = .panic := by
+  simp [Generated.Funcs.AlphabetSize, Generated.Funcs.kBaseAlphabetSize, Generated.Funcs.KLiteralMap, idxI, chkShift, h, Res.bind]
+
+/-- dsp/lossless_dsp.go `colorTransformDelta(multiplier int8, value int32) int32` =
+    `Spec.LTransform.colorDelta` on the low byte of `value` (every `Int`): the
+    `(g2r * green) >>> 5` terms of `Impl.LTransform.colorSpaceInvPx` -/
+theorem tie_colorTransformDelta (t : UInt8) (v : Int) :
+    Generated.Funcs.colorTransformDelta (sext8 t) v = colorDelta t (byteOfInt v) := by
+  unfold Generated.Funcs.colorTransformDelta colorDelta
+  rw [wrapS8_eq_sext8]
+  have ht := sext8_range t
+  have hc := sext8_range (byteOfInt v)
+  have := mul_s8_range _ _ ht.1 ht.2 hc.1 hc.2
+  rw [wrapS32_of_range _ (by omega) (by omega)]
+  rfl
+
+/-- the form used by `Impl.LTransform.colorSpaceInvPx`: `(sext8 t * sext8 c) >>> 5` -/
+theorem tie_colorTransformDelta_byte (t c : UInt8) :
+    Generated.Funcs.colorTransformDelta (sext8 t) c.toNat = (sext8 t * sext8 c) >>> 5 := by
+  rw [tie_colorTransformDelta, Webp.Proofs.LTransformColor.byteOfInt_toNat_self]; rfl
+
+/-- … and with the already sign-extended green (`green := int32(int8(argb >> 8))` in Go) -/
+theorem tie_colorTransformDelta_sext (t c : UInt8) :
+    Generated.Funcs.colorTransformDelta (sext8 t) (sext8 c) = (sext8 t * sext8 c) >>> 5 := by
+  rw [tie_colorTransformDelta]
+  have hc : byteOfInt (sext8 c) = c := by
+    have h := c.toNat_lt
+    rw [Webp.Proofs.LTransformColor.byteOfInt_congr (b := (c.toNat : Int))
+      (by rw [Webp.Proofs.LTransformColor.sext8_mod]; omega)]
+    exact Webp.Proofs.LTransformColor.byteOfInt_toNat_self c
+  rw [hc]; rfl
+
 /-- non-vacuity: code 37 on a 100-pixel-wide image is `dy = 4, dx = -3`, distance 397 -/
 example : Generated.Funcs.PlaneCodeToDistance 100 37 = .ok 397 := by decide
 example : Generated.Funcs.VP8LSubSampleSize 1000 3 = .ok 125 := by decide
 example : Generated.Funcs.addPixels 0x12345678 0xfedcba98 = 0x10101010 := by decide
 example : Generated.Funcs.selectPredictor 0x12345678 0xfedcba98 0x01020304 = 0xfedcba98 := by decide
+example : Generated.Funcs.getARGBIndex 0x12345678 = 0x56 := by decide
+example : Generated.Funcs.AlphabetSize 0 3 = .ok 288 ∧ Generated.Funcs.AlphabetSize 4 3 = .ok 40 ∧
+    Generated.Funcs.AlphabetSize 5 3 = .panic ∧ Generated.Funcs.AlphabetSize (-1) 3 = .panic := by decide
+example : Generated.Funcs.colorTransformDelta (-128) 128 = 512 ∧ Generated.Funcs.colorTransformDelta (-3) 0x156 = -9 := by decide
 
 end Webp.Props.C03Funcs
